@@ -27,6 +27,7 @@ FIX = {
  "reader": "fix: disk files are read as if their granules",
  "filter": "fix: file_util --files",
  "sizing2": "fix: operand sizing loops forever for label,R",
+ "encode": "fix: a save that cannot be encoded truncates",
 }
 
 FIXED = [
@@ -47,6 +48,8 @@ FIXED = [
  ("C06", "C06-long-tape-opened-as-disk", "sniff_long", "file_util --list of a well-formed tape of >= 161,280 bytes fails: the image is handed to the disk reader"),
  ("C09", "C09-zero-filled-long-cassette-opened-as-disk", "sniff_long", "a 185,865-byte cassette of zero-filled files re-opens as a disk; --to_cas --append is refused"),
  ("C10", "C10-raw-binary-overwritten-by-cas-append", "sniff_raw", "assembler.py --to_cas raw.bin --append replaces a raw binary with a cassette image"),
+ ("C10", "C10-unstorable-name-truncates-target", "encode", "assembler.py --name (a name with a character above U+00FF) --to_cas t.cas --append empties the existing tape: the file is opened with 'wb' before the buffer is converted"),
+ ("C09", "C09-unstorable-name-destroys-stored-files", "encode", "an addition that fails while the image is being written (unstorable name) destroys every file already stored on it"),
  ("C16", "C16-files-filter-lower-case-name", "filter", "file_util --files alpha selects nothing from a tape whose file is named alpha"),
  ("C19", "C19-missing-include-traceback", "include", "assembler.py ends in a FileNotFoundError traceback when an included file is missing"),
  ("C19", "C19-include-cycle-recursion", "include", "assembler.py ends in RecursionError on an inclusion cycle"),
